@@ -1301,6 +1301,7 @@ class LineageDB(abc.Mapping):
                     raise ValueError(
                         f"'lin' column not found: cannot read LIN taxonomy assignments from {filename}."
                     )
+                ranks = []  # set from the first row; stays empty for a file without rows
 
             if ictv:
                 notify("Trying to read ICTV taxonomy assignments.")
